@@ -16,6 +16,7 @@ import WuffsVerif.Proof.PngEncode
 import WuffsVerif.Proof.PngSafe
 import WuffsVerif.Proof.PngPixels
 import WuffsVerif.Proof.PngGen
+import WuffsVerif.Proof.PngSize
 
 namespace WuffsVerif.Props.C19
 open WuffsVerif.Hash WuffsVerif.Png WuffsVerif.Png.Uncomp WuffsVerif.Gen.C19
@@ -72,17 +73,18 @@ theorem new_usable : Usable Enc.new := ⟨by simp [Enc.new], rfl⟩
 /-- `buf_inbounds`: on valid arguments, for EVERY writer (failing at any call or never) and every
 prior buffer content, no store `e.buf[i] = v` and no slice bound leaves the 65536-byte buffer
 (the sticky `oob` flag — Go's index-out-of-range panic — stays clear) and the buffer keeps its size. -/
-theorem buf_inbounds (e : Enc) (w : Writer) (pix : Array UInt8) (width height stride : Nat)
+theorem buf_inbounds (e : Enc) (w : Writer) (pix : Array UInt8) (plen width height stride : Nat)
     (depth colorType : UInt8) (he : Usable e) (hw : w.writes.size = 0) (hlen : pix.size < 2 ^ 63)
+    (hple : plen ≤ pix.size)
     (hw2 : width ≤ 0xFFFFFF) (hh2 : height ≤ 0xFFFFFF)
     (hd : depth = 8 ∨ depth = 16) (hc : colorType = 1 ∨ colorType = 2 ∨ colorType = 3)
-    (hpix : ∀ y, y < height → y * stride + (loopParams depth colorType).2 * width ≤ pix.size) :
-    (encode e w pix width height stride depth colorType).e.oob = false ∧
-    (encode e w pix width height stride depth colorType).e.buf.size = 65536 := by
+    (hpix : ∀ y, y < height → y * stride + (loopParams depth colorType).2 * width ≤ plen) :
+    (encode e w pix plen width height stride depth colorType).e.oob = false ∧
+    (encode e w pix plen width height stride depth colorType).e.buf.size = 65536 := by
   have hw0 : WOk w.failAt w true := by
     refine ⟨rfl, ?_⟩
     cases w.failAt <;> simp [hw]
-  have h := (encode_safe e w pix width height stride depth colorType he hw0 hlen hw2 hh2 hd hc hpix).1
+  have h := (encode_safe e w pix plen width height stride depth colorType he hw0 hlen hple hw2 hh2 hd hc hpix).1
   exact ⟨h.2, h.1⟩
 
 /-- `ej ≤ ejMax` at every pixel boundary: whatever the pixel loop does (including flushes), it ends
@@ -111,16 +113,16 @@ bit-serial CRCs, zlib header, stored-block framing, Adler-32, filter-0 scanlines
 same width, height, depth, the PNG colour type (0 | 2 | 6) and exactly the input pixel bytes — the
 first `n` of every `k` source bytes, i.e. RGBX without its X byte — however rows and pixels
 straddle the flushes of the 64 KiB buffer. -/
-theorem png_roundtrip (e : Enc) (pix : Array UInt8) (width height stride : Nat) (depth colorType : UInt8)
-    (he : Usable e) (hlen : pix.size < 2 ^ 63)
+theorem png_roundtrip (e : Enc) (pix : Array UInt8) (plen width height stride : Nat) (depth colorType : UInt8)
+    (he : Usable e) (hlen : pix.size < 2 ^ 63) (hple : plen ≤ pix.size)
     (hw : 0 < width) (hw2 : width ≤ 0xFFFFFF) (hh : 0 < height) (hh2 : height ≤ 0xFFFFFF)
     (hd : depth = 8 ∨ depth = 16) (hc : colorType = 1 ∨ colorType = 2 ∨ colorType = 3)
-    (hpix : (height - 1) * stride + (loopParams depth colorType).2 * width ≤ pix.size) :
-    (encode e (Writer.new none) pix width height stride depth colorType).status = .ok ∧
-    Spec.decode (concatWrites (encode e (Writer.new none) pix width height stride depth colorType).w)
+    (hpix : (height - 1) * stride + (loopParams depth colorType).2 * width ≤ plen) :
+    (encode e (Writer.new none) pix plen width height stride depth colorType).status = .ok ∧
+    Spec.decode (concatWrites (encode e (Writer.new none) pix plen width height stride depth colorType).w)
       = some ⟨width, height, depth.toNat, (pngFileFormatEncoding colorType).toNat,
           imageBytes pix (loopParams depth colorType).1 (loopParams depth colorType).2 width stride height 0⟩ := by
-  have h := encode_decodes e pix width height stride depth colorType he.1 he.2 hlen hw hw2 hh hh2 hd hc hpix
+  have h := encode_decodes e pix plen width height stride depth colorType he.1 he.2 hlen hple hw hw2 hh hh2 hd hc hpix
   exact ⟨h.1, h.2.2.2⟩
 
 /-- What the decoded `pixels` of `png_roundtrip` are, pointwise: `height` rows of `width * n` bytes,
@@ -139,9 +141,9 @@ theorem decoded_pixels_pointwise (pix : Array UInt8) (n k width stride height : 
 
 /-- non-vacuity: the hypotheses hold for a fresh encoder and a 2×2 gray image, and the theorem then
 yields a successful decode of that image. -/
-example : ∃ im, Spec.decode (concatWrites (encode Enc.new (Writer.new none) #[1, 2, 3, 4] 2 2 2 8 1).w) = some im ∧
+example : ∃ im, Spec.decode (concatWrites (encode Enc.new (Writer.new none) #[1, 2, 3, 4] 4 2 2 2 8 1).w) = some im ∧
     im.width = 2 ∧ im.height = 2 := by
-  have h := png_roundtrip Enc.new #[1, 2, 3, 4] 2 2 2 8 1 new_usable (by decide) (by decide) (by decide) (by decide)
+  have h := png_roundtrip Enc.new #[1, 2, 3, 4] 4 2 2 2 8 1 new_usable (by decide) (by decide) (by decide) (by decide) (by decide)
     (by decide) (Or.inl rfl) (Or.inl rfl) (by decide)
   exact ⟨_, h.2, rfl, rfl⟩
 
@@ -152,42 +154,50 @@ arbitrary writers (failing or not), and calls rejected by the argument validatio
 inductive Reached : Enc → Prop
   | fresh : Reached Enc.new
   | encoded {e : Enc} (h : Reached e) (w : Writer) (hw : w.writes.size = 0) (pix : Array UInt8)
-      (hlen : pix.size < 2 ^ 63) (width height stride : Nat) (depth colorType : UInt8)
+      (hlen : pix.size < 2 ^ 63) (plen : Nat) (hple : plen ≤ pix.size) (width height stride : Nat)
+      (depth colorType : UInt8)
       (hw2 : width ≤ 0xFFFFFF) (hh2 : height ≤ 0xFFFFFF)
       (hd : depth = 8 ∨ depth = 16) (hc : colorType = 1 ∨ colorType = 2 ∨ colorType = 3)
-      (hpix : ∀ y, y < height → y * stride + (loopParams depth colorType).2 * width ≤ pix.size) :
-      Reached (encode e w pix width height stride depth colorType).e
-  | rejected {e : Enc} (h : Reached e) (w : Writer) (pix : Array UInt8) (width height stride : Int)
+      (hpix : ∀ y, y < height → y * stride + (loopParams depth colorType).2 * width ≤ plen) :
+      Reached (encode e w pix plen width height stride depth colorType).e
+  | rejected {e : Enc} (h : Reached e) (w : Writer) (pix : Array UInt8) (plen : Nat) (width height stride : Int)
       (depth colorType : UInt8)
       (hbad : width < 0 ∨ height < 0 ∨ (depth ≠ 8 ∧ depth ≠ 16) ∨
         ¬ (colorType = 1 ∨ colorType = 2 ∨ colorType = 3) ∨ width > 0xFFFFFF ∨ height > 0xFFFFFF) :
-      Reached (encode e w pix width height stride depth colorType).e
+      Reached (encode e w pix plen width height stride depth colorType).e
+  /-- ANY call at all — e.g. one whose pixel buffer is too short, so that Go panics half-way with a
+  slice-bounds error — after the caller has recovered from the panic (the sticky flag is the panic). -/
+  | recovered {e : Enc} (h : Reached e) (w : Writer) (pix : Array UInt8) (plen : Nat) (width height stride : Int)
+      (depth colorType : UInt8) :
+      Reached { (encode e w pix plen width height stride depth colorType).e with oob := false }
 
 /-- frame lemma: every reachable state is usable (`init` rewrites every byte that is read later, so
 nothing else about the previous images matters — `png_roundtrip` needs only `Usable`). -/
 theorem reached_usable {e : Enc} (h : Reached e) : Usable e := by
   induction h with
   | fresh => exact new_usable
-  | encoded _ w hw pix hlen width height stride depth colorType hw2 hh2 hd hc hpix ih =>
+  | encoded _ w hw pix hlen plen hple width height stride depth colorType hw2 hh2 hd hc hpix ih =>
     have hw0 : WOk w.failAt w true := by
       refine ⟨rfl, ?_⟩
       cases w.failAt <;> simp [hw]
-    exact (encode_safe _ w pix width height stride depth colorType ih hw0 hlen hw2 hh2 hd hc hpix).1
-  | rejected _ w pix width height stride depth colorType hbad ih =>
-    rw [(encode_rejects _ w pix width height stride depth colorType hbad).2.1]; exact ih
+    exact (encode_safe _ w pix plen width height stride depth colorType ih hw0 hlen hple hw2 hh2 hd hc hpix).1
+  | rejected _ w pix plen width height stride depth colorType hbad ih =>
+    rw [(encode_rejects _ w pix plen width height stride depth colorType hbad).2.1]; exact ih
+  | recovered _ w pix plen width height stride depth colorType ih =>
+    exact ⟨by rw [encode_size]; exact ih.1, rfl⟩
 
 /-- `encoder_reusable`: the n-th `Encode` on one Encoder, after any history of earlier images,
 writer failures and rejected calls, has the same guarantee as the first. -/
-theorem encoder_reusable {e : Enc} (hr : Reached e) (pix : Array UInt8) (width height stride : Nat)
-    (depth colorType : UInt8) (hlen : pix.size < 2 ^ 63)
+theorem encoder_reusable {e : Enc} (hr : Reached e) (pix : Array UInt8) (plen width height stride : Nat)
+    (depth colorType : UInt8) (hlen : pix.size < 2 ^ 63) (hple : plen ≤ pix.size)
     (hw : 0 < width) (hw2 : width ≤ 0xFFFFFF) (hh : 0 < height) (hh2 : height ≤ 0xFFFFFF)
     (hd : depth = 8 ∨ depth = 16) (hc : colorType = 1 ∨ colorType = 2 ∨ colorType = 3)
-    (hpix : (height - 1) * stride + (loopParams depth colorType).2 * width ≤ pix.size) :
-    (encode e (Writer.new none) pix width height stride depth colorType).status = .ok ∧
-    Spec.decode (concatWrites (encode e (Writer.new none) pix width height stride depth colorType).w)
+    (hpix : (height - 1) * stride + (loopParams depth colorType).2 * width ≤ plen) :
+    (encode e (Writer.new none) pix plen width height stride depth colorType).status = .ok ∧
+    Spec.decode (concatWrites (encode e (Writer.new none) pix plen width height stride depth colorType).w)
       = some ⟨width, height, depth.toNat, (pngFileFormatEncoding colorType).toNat,
           imageBytes pix (loopParams depth colorType).1 (loopParams depth colorType).2 width stride height 0⟩ :=
-  png_roundtrip e pix width height stride depth colorType (reached_usable hr) hlen hw hw2 hh hh2 hd hc hpix
+  png_roundtrip e pix plen width height stride depth colorType (reached_usable hr) hlen hple hw hw2 hh hh2 hd hc hpix
 
 /-! ## Go `int` arithmetic: `y*stride` never wraps where it matters
 
@@ -197,9 +207,10 @@ The two facts below say when the wrap-around is the identity. -/
 
 /-- inside the property (`(height-1)*stride + k*width ≤ len(pix)`), every row offset is the
 mathematical product and the row lies inside `pix`. -/
-theorem row_offset_no_overflow (pix : Array UInt8) (width height stride k : Nat) (hlen : pix.size < 2 ^ 63)
-    (hpix : (height - 1) * stride + k * width ≤ pix.size) (y : Nat) (hy : y < height) :
-    wrapInt64 ((y : Int) * (stride : Int)) = ((y * stride : Nat) : Int) ∧ y * stride + k * width ≤ pix.size := by
+theorem row_offset_no_overflow (pix : Array UInt8) (plen width height stride k : Nat) (hlen : pix.size < 2 ^ 63)
+    (hple : plen ≤ pix.size)
+    (hpix : (height - 1) * stride + k * width ≤ plen) (y : Nat) (hy : y < height) :
+    wrapInt64 ((y : Int) * (stride : Int)) = ((y * stride : Nat) : Int) ∧ y * stride + k * width ≤ plen := by
   have h1 : y * stride ≤ (height - 1) * stride := Nat.mul_le_mul_right _ (by omega)
   refine ⟨?_, by omega⟩
   rw [← Int.natCast_mul]
@@ -255,30 +266,30 @@ theorem constants_match_source :
 /-- `writer_error_propagates`: with a writer whose call number `k` fails, `Encode` on valid
 arguments either never reaches that call and returns `ok`, or returns the write error with the
 failing call being the last `Write` made (exactly `k + 1` calls). -/
-theorem writer_error_propagates (e : Enc) (k : Nat) (pix : Array UInt8) (width height stride : Nat)
-    (depth colorType : UInt8) (he : Usable e) (hlen : pix.size < 2 ^ 63)
+theorem writer_error_propagates (e : Enc) (k : Nat) (pix : Array UInt8) (plen width height stride : Nat)
+    (depth colorType : UInt8) (he : Usable e) (hlen : pix.size < 2 ^ 63) (hple : plen ≤ pix.size)
     (hw2 : width ≤ 0xFFFFFF) (hh2 : height ≤ 0xFFFFFF)
     (hd : depth = 8 ∨ depth = 16) (hc : colorType = 1 ∨ colorType = 2 ∨ colorType = 3)
-    (hpix : ∀ y, y < height → y * stride + (loopParams depth colorType).2 * width ≤ pix.size) :
-    ((encode e (Writer.new (some k)) pix width height stride depth colorType).status = .ok ∧
-      (encode e (Writer.new (some k)) pix width height stride depth colorType).w.writes.size ≤ k) ∨
-    ((encode e (Writer.new (some k)) pix width height stride depth colorType).status = .writeError ∧
-      (encode e (Writer.new (some k)) pix width height stride depth colorType).w.writes.size = k + 1) := by
+    (hpix : ∀ y, y < height → y * stride + (loopParams depth colorType).2 * width ≤ plen) :
+    ((encode e (Writer.new (some k)) pix plen width height stride depth colorType).status = .ok ∧
+      (encode e (Writer.new (some k)) pix plen width height stride depth colorType).w.writes.size ≤ k) ∨
+    ((encode e (Writer.new (some k)) pix plen width height stride depth colorType).status = .writeError ∧
+      (encode e (Writer.new (some k)) pix plen width height stride depth colorType).w.writes.size = k + 1) := by
   have hw0 : WOk (some k) (Writer.new (some k)) true := by simp [WOk, Writer.new]
-  rcases (encode_safe e (Writer.new (some k)) pix width height stride depth colorType he hw0 hlen hw2 hh2 hd hc hpix).2
+  rcases (encode_safe e (Writer.new (some k)) pix plen width height stride depth colorType he hw0 hlen hple hw2 hh2 hd hc hpix).2
     with ⟨h1, h2⟩ | ⟨h1, h2⟩
   · exact Or.inl ⟨h1, h2.2.1 rfl⟩
   · exact Or.inr ⟨h1, h2.2.2 rfl⟩
 
 /-- Rejected arguments write nothing and leave the encoder as it was. -/
-theorem invalid_arguments_write_nothing (e : Enc) (w : Writer) (pix : Array UInt8) (width height stride : Int)
+theorem invalid_arguments_write_nothing (e : Enc) (w : Writer) (pix : Array UInt8) (plen : Nat) (width height stride : Int)
     (depth colorType : UInt8)
     (hbad : width < 0 ∨ height < 0 ∨ (depth ≠ 8 ∧ depth ≠ 16) ∨
       ¬ (colorType = 1 ∨ colorType = 2 ∨ colorType = 3) ∨ width > 0xFFFFFF ∨ height > 0xFFFFFF) :
-    ((encode e w pix width height stride depth colorType).status = .invalidArgument ∨
-     (encode e w pix width height stride depth colorType).status = .unsupportedSize) ∧
-    (encode e w pix width height stride depth colorType).e = e ∧
-    (encode e w pix width height stride depth colorType).w = w :=
-  encode_rejects e w pix width height stride depth colorType hbad
+    ((encode e w pix plen width height stride depth colorType).status = .invalidArgument ∨
+     (encode e w pix plen width height stride depth colorType).status = .unsupportedSize) ∧
+    (encode e w pix plen width height stride depth colorType).e = e ∧
+    (encode e w pix plen width height stride depth colorType).w = w :=
+  encode_rejects e w pix plen width height stride depth colorType hbad
 
 end WuffsVerif.Props.C19
